@@ -26,9 +26,14 @@ def conc(x, lo, hi):
     return hi
 
 
+def _array_ids(sk):
+    return dict((k, id(v)) for k, v in vars(sk).items() if hasattr(v, "shape") and hasattr(v, "dtype") and getattr(v, "shape", ()) != ())
+
+
 def _try_merge(a, b):
     """returns (raised TypeError?, untouched?, number of merge-kernel calls, first call)"""
     sa, sb = snapshot(a), snapshot(b)
+    ia, ib = _array_ids(a), _array_ids(b)
     clear_calls()
     try:
         a.merge(b)
@@ -37,7 +42,12 @@ def _try_merge(a, b):
         raised = True
     same = snapshot(a) == sa and snapshot(b) == sb
     kc = [c for c in calls() if c[0] in MERGE_KERNELS]
+    # a merge never rebinds a sketch's arrays (no aliasing between the two operands afterwards)
+    OWN[0] = _array_ids(a) == ia and _array_ids(b) == ib and not (set(_array_ids(a).values()) & set(_array_ids(b).values()))
     return raised, same, len(kc), (kc[0] if kc else None)
+
+
+OWN = [True]
 
 
 def _verdict(a, b, compatible, kernel_name):
@@ -45,9 +55,9 @@ def _verdict(a, b, compatible, kernel_name):
     if not compatible:
         return raised and same and n == 0
     if MODE == "shim":
-        ok = (not raised) and n == 1 and first[0] == kernel_name
+        ok = (not raised) and n == 1 and first[0] == kernel_name and OWN[0]
         return ok and _args_ok(a, b, kernel_name, first[1])
-    return not raised
+    return (not raised) and OWN[0]
 
 
 def _args_ok(a, b, kernel_name, args):
@@ -161,14 +171,28 @@ def check_twin_refusal_reachable(w1: int, d1: int, w2: int, d2: int) -> bool:
 
 # ---------------------------------------------------------------------------------------------- real-library replays
 def _real_pair(mk_a, mk_b, compatible, fill):
-    try:
-        a, b = mk_a(), mk_b()
-    except (ValueError, OverflowError, MemoryError) as e:
-        return True, f"constructor refused the configuration ({type(e).__name__}); not a merge question"
-    fill(a)
-    fill(b)
-    ok = _verdict(a, b, compatible, None)
-    return ok, f"compatible={compatible}: merge {'accepted' if compatible and not ok else 'behaved wrongly' if not ok else 'behaved as documented'}"
+    last = (True, "")
+    for (fa, fb) in ((True, True), (False, True), (True, False)):
+        try:
+            a, b = mk_a(), mk_b()
+        except (ValueError, OverflowError, MemoryError) as e:
+            return True, f"constructor refused the configuration ({type(e).__name__}); not a merge question"
+        if fa:
+            fill(a)
+        if fb:
+            fill(b)
+        ok = _verdict(a, b, compatible, None)
+        det = f"compatible={compatible} (destination {'non-empty' if fa else 'EMPTY'}, argument {'non-empty' if fb else 'EMPTY'}): merge {'behaved as documented' if ok else 'behaved wrongly (raised / rebound arrays / changed a refused operand)'}"
+        if ok and compatible:
+            # the two sketches stay independent objects: a later add to one does not show in the other
+            sb = snapshot(b)
+            fill(a)
+            if snapshot(b) != sb:
+                ok, det = False, f"after a.merge(b) (destination {'non-empty' if fa else 'EMPTY'}) an add to a changed b: the sketches share storage"
+        last = (ok, det)
+        if not ok:
+            return last
+    return last
 
 
 def _small(w, d):
